@@ -373,3 +373,97 @@ pub fn add_operators(seed: u64) -> Verdict {
     }
     Verdict::Hold
 }
+
+/// the by-value forms R + &S, R + (f, &S) (kzg10, marlin and PST13 randomness), `+=` with a missing shifted part
+pub fn add_operators_by_value(seed: u64) -> Verdict {
+    fn co(p: &UP, i: usize) -> SF {
+        use ark_poly::DenseUVPolynomial;
+        p.coeffs().get(i).copied().unwrap_or(SF::zero())
+    }
+    use crate::engine::grp::ToyPairing;
+    use ark_poly::DenseUVPolynomial;
+    use ark_poly_commit::kzg10;
+    use ark_poly_commit::marlin_pc;
+    use ark_poly_commit::PCCommitmentState;
+    let _ = seed;
+    let f = sym("f");
+    let mk = |tag: &str, n: usize| -> kzg10::Randomness<SF, UP> {
+        let mut r = kzg10::Randomness::<SF, UP>::empty();
+        r.blinding_polynomial = UP::from_coefficients_vec((0..n).map(|i| sym(&format!("{}{}", tag, i))).collect());
+        r
+    };
+    let (r1, r2, s1, s2) = (mk("r", 2), mk("q", 2), mk("s", 2), mk("t", 2));
+    let a = marlin_pc::Randomness { rand: r1.clone(), shifted_rand: Some(s1.clone()) };
+    let b = marlin_pc::Randomness { rand: r2.clone(), shifted_rand: Some(s2.clone()) };
+    // the by-value operators: R + &S, R + (f, &S) for kzg10 and marlin randomness
+    let k2 = r1.clone() + &r2;
+    let k3 = r1.clone() + (f, &r2);
+    let k4 = {
+        let mut x = r1.clone();
+        x += &r2;
+        x
+    };
+    for i in 0..2 {
+        let (x, y) = (co(&r1.blinding_polynomial, i), co(&r2.blinding_polynomial, i));
+        if co(&k2.blinding_polynomial, i) != x + y || co(&k4.blinding_polynomial, i) != x + y {
+            return Verdict::viol("randomness-add", "kzg10 Randomness + &S (or += &S) is not coefficient-wise addition");
+        }
+        if co(&k3.blinding_polynomial, i) != x + f * y {
+            return Verdict::viol("randomness-add", "kzg10 Randomness + (f, &S) is not R + f*S");
+        }
+    }
+    let m2 = a.clone() + &b;
+    let m3 = a.clone() + (f, &b);
+    for i in 0..2 {
+        let (x, y, xs, ys) = (co(&r1.blinding_polynomial, i), co(&r2.blinding_polynomial, i), co(&s1.blinding_polynomial, i), co(&s2.blinding_polynomial, i));
+        let sh2 = m2.shifted_rand.as_ref().map(|z| co(&z.blinding_polynomial, i));
+        let sh3 = m3.shifted_rand.as_ref().map(|z| co(&z.blinding_polynomial, i));
+        if co(&m2.rand.blinding_polynomial, i) != x + y || sh2 != Some(xs + ys) {
+            return Verdict::viol("randomness-add", "marlin Randomness + &S is not coefficient-wise addition of both parts");
+        }
+        if co(&m3.rand.blinding_polynomial, i) != x + f * y || sh3 != Some(xs + f * ys) {
+            return Verdict::viol("randomness-add", "marlin Randomness + (f, &S) is not R + f*S on both parts");
+        }
+    }
+    // a summand without a shifted part leaves the accumulator's shifted part alone; an accumulator without one adopts f*S
+    let plain = marlin_pc::Randomness { rand: r2.clone(), shifted_rand: None };
+    let m4 = a.clone() + (f, &plain);
+    let mut m5 = marlin_pc::Randomness::<SF, UP> { rand: r1.clone(), shifted_rand: None };
+    m5 += (f, &b);
+    for i in 0..2 {
+        if m4.shifted_rand.as_ref().map(|z| co(&z.blinding_polynomial, i)) != Some(co(&s1.blinding_polynomial, i)) {
+            return Verdict::viol("randomness-add-shifted", "adding a summand without shifted part changed the shifted part");
+        }
+        if m5.shifted_rand.as_ref().map(|z| co(&z.blinding_polynomial, i)) != Some(f * co(&s2.blinding_polynomial, i)) {
+            return Verdict::viol("randomness-add-shifted", "an accumulator without shifted part += (f, &R): shifted part is not f*S");
+        }
+    }
+    // PST13 randomness (sparse multivariate blinding polynomials), all four operators, at a symbolic point
+    {
+        use ark_poly::multivariate::{SparsePolynomial, SparseTerm, Term};
+        use ark_poly::{DenseMVPolynomial, Polynomial};
+        use ark_poly_commit::marlin::marlin_pst13_pc;
+        type MP = SparsePolynomial<SF, SparseTerm>;
+        let mkp = |tag: &str| -> marlin_pst13_pc::Randomness<ToyPairing, MP> {
+            let mut r = marlin_pst13_pc::Randomness::<ToyPairing, MP>::empty();
+            r.blinding_polynomial = MP::from_coefficients_vec(2, vec![(sym(&format!("{}0", tag)), SparseTerm::new(vec![])), (sym(&format!("{}1", tag)), SparseTerm::new(vec![(0, 1)])), (sym(&format!("{}2", tag)), SparseTerm::new(vec![(1, 2)]))]);
+            r
+        };
+        let (p1, p2) = (mkp("u"), mkp("w"));
+        let z = vec![sym("zx"), sym("zy")];
+        let (e1, e2) = (p1.blinding_polynomial.evaluate(&z), p2.blinding_polynomial.evaluate(&z));
+        let q1 = p1.clone() + &p2;
+        let q2 = p1.clone() + (f, &p2);
+        let mut q3 = p1.clone();
+        q3 += &p2;
+        let mut q4 = p1.clone();
+        q4 += (f, &p2);
+        if q1.blinding_polynomial.evaluate(&z) != e1 + e2 || q3.blinding_polynomial.evaluate(&z) != e1 + e2 {
+            return Verdict::viol("randomness-add-pst13", "pst13 Randomness + &S / += &S is not the sum of the blinding polynomials");
+        }
+        if q2.blinding_polynomial.evaluate(&z) != e1 + f * e2 || q4.blinding_polynomial.evaluate(&z) != e1 + f * e2 {
+            return Verdict::viol("randomness-add-pst13", "pst13 Randomness + (f, &S) / += (f, &S) is not R + f*S");
+        }
+    }
+    Verdict::Hold
+}
